@@ -400,6 +400,36 @@ func (ch c04) Run(c *core.Ctx) {
 	}
 	// ---- many clients starting up at the same moment (a reconnect storm), some of them half-way: the
 	// process survives and a fresh connection is served afterwards ----
+	// a long binary COPY (12 MiB) whose CopyData messages never end on a row boundary (rows of 1006 bytes in
+	// messages of 4024 behind a 19-byte header, as a driver that fills fixed-size buffers sends them): what the
+	// row reader holds on behalf of the stream stays a matter of messages and rows, not of the stream's length
+	// (judged by the allocation sanitizer at the end of the batch)
+	if c.Batch == 6%nb && c.Begin(881000000) {
+		lt := c14table{OIDs: []uint32{pg.OIDBytea}}
+		val := bytes.Repeat([]byte{0xab}, 1000)
+		for r := 0; r < 12500; r++ {
+			lt.Rows = append(lt.Rows, []any{val})
+		}
+		stream, _ := lt.encode()
+		plan := &hs.CopyPlan{Format: wire.BinaryFormat, MaxReads: -1, OnErr: "propagate", Binary: true}
+		sess := &hs.Sess{Progs: map[string]*hs.Prog{"copy": {Stmts: []*hs.Stmt{{ID: "copy", Cols: wire.Columns{{Name: "b", Oid: oid.T_bytea, Width: -1}}, Ops: []hs.Op{{K: "copy", Copy: plan}}}}}}}
+		conn := envs.plain.Dial(sess)
+		conn.NoLog = true
+		in := append(pg.Startup([][2]string{{"user", "u"}}), pg.Query("copy")...)
+		for off := 0; off < len(stream); off += 4024 {
+			in = append(in, pg.CopyData(stream[off:min(off+4024, len(stream))])...)
+		}
+		conn.Send(append(append(in, pg.CopyDone()...), pg.Terminate()...))
+		conn.CloseWrite()
+		if !conn.WaitClosed() {
+			c.Inconclusive("C04 long-COPY part: connection did not end")
+		} else if k := replyKinds(conn.Out()); !strings.Contains(k, "C(\"COPY") && !strings.Contains(k, "C(") {
+			c.Inconclusive("C04 long-COPY part: the COPY did not complete: " + trim(k, 200))
+		} else {
+			c.Count("long_binary_copy_streams_with_misaligned_messages", 1)
+			c.Eval("long binary COPY, misaligned messages", true)
+		}
+	}
 	// a handler that keeps the CopyReader it was given (an audit routine drains it later) and reads it again
 	// after its connection has ended: that read fails or ends - the process lives, and the connection that is
 	// being served at that moment gets every one of its queries answered
